@@ -623,7 +623,21 @@ fn exec_inner(world: &mut World, ctx: &Shared, op: &Op) -> String {
             format!("e {}", show_entity(e))
         }
         Op::CreateIter { atomic, n } => {
-            let es: Vec<Entity> = if *atomic { let ents = world.entities(); let v = ents.create_iter().take(*n).collect(); v } else { world.create_iter().take(*n).collect() };
+            let es: Vec<Entity> = if *atomic {
+                let ents = world.entities();
+                if *n >= 3 && *n % 2 == 1 {
+                    // odd counts: the iterator stays alive while other deferred creations happen (first and last entity
+                    // from the iterator, the ones in between from `Entities::create`) — the same allocations in the same order
+                    let mut it = ents.create_iter();
+                    let mut v = vec![it.next().unwrap()];
+                    for _ in 0..(*n - 2) { v.push(ents.create()); }
+                    v.push(it.next().unwrap());
+                    drop(it);
+                    v
+                } else {
+                    let v = ents.create_iter().take(*n).collect(); v
+                }
+            } else { world.create_iter().take(*n).collect() };
             let mut s = String::from("es");
             for e in &es { write!(s, " {}", show_entity(*e)).unwrap(); }
             ctx.lock().unwrap().log.extend(es);
@@ -1132,7 +1146,7 @@ pub fn gen_script(rng: &mut Rng, len: usize) -> Vec<Op> {
             2 => { nlog += 1; Op::Create { atomic: true, dropped: false } }
             3 => { nlog += 1; Op::Create { atomic: true, dropped: true } }
             4 => { let n = rng.range(0, 4) as usize; nlog += n; Op::CreateIter { atomic: false, n } }
-            5 => { let n = rng.range(0, 4) as usize; nlog += n; Op::CreateIter { atomic: true, n } }
+            5 => { let n = rng.range(0, 5) as usize; nlog += n; Op::CreateIter { atomic: true, n } }
             6 => Op::DelNow(pick_slot(rng, nlog)),
             7 => {
                 Op::DelBatch(gen_batch(rng, nlog, 6))
@@ -1266,7 +1280,7 @@ fn gen_store_op_inner(rng: &mut Rng, ws: &[u32; 31], p: &StoreProfile, k: usize,
             Op::RJoin { k, mutable, shared, acts }
         }
         29 => Op::DelAll,
-        _ => { let n = rng.range(1, 3) as usize; *nlog += n; Op::CreateIter { atomic: rng.chance(1, 2), n } }
+        _ => { let n = rng.range(1, 5) as usize; *nlog += n; Op::CreateIter { atomic: rng.chance(1, 2), n } }
     }
 }
 
@@ -1392,6 +1406,7 @@ pub fn exhaustive_alphabet() -> Vec<Op> {
         Op::DelAll,
         Op::Maintain,
         Op::CreateIter { atomic: true, n: 2 },
+        Op::CreateIter { atomic: true, n: 3 },
     ]
 }
 
